@@ -236,7 +236,7 @@ replace %s => %s
 	bgomod := strings.Replace(gomod, "go 1.22.0", "go 1.25.0", 1) + fmt.Sprintf("\nreplace %s => %s\n", zkmod, filepath.Join(scratch, "zk"))
 	must(os.WriteFile(filepath.Join(bdir, "go.mod"), []byte(bgomod), 0644))
 	must(os.WriteFile(filepath.Join(bdir, "go.sum"), sum, 0644))
-	for _, sc := range []string{"s3", "s1"} {
+	for _, sc := range []string{"s3", "s1", "s2", "s4"} {
 		if out, err := run(verifDir, goEnv, "cp", "-r", filepath.Join(verifDir, "scen", sc), filepath.Join(bdir, "scen", sc)); err != nil {
 			die(2, "copy scen/%s: %v %s", sc, err, out)
 		}
@@ -285,6 +285,10 @@ func addRuntimeSeam(overlay, ovDir string) {
 	// likewise runtime.Gosched from a bubbled goroutine (the bubble kernel's yield): tail of the local run queue
 	patch("proc.go.2", "\t} else {\n\t\tlock(&sched.lock)\n\t\tglobrunqput(gp)\n\t\tunlock(&sched.lock)\n\t}\n\n\tif mainStarted {\n\t\twakep()\n\t}\n\n\tschedule()\n}",
 		"\t} else if gp.bubble != nil && verifLocalYield {\n\t\trunqput(pp, gp, false)\n\t} else {\n\t\tlock(&sched.lock)\n\t\tglobrunqput(gp)\n\t\tunlock(&sched.lock)\n\t}\n\n\tif mainStarted {\n\t\twakep()\n\t}\n\n\tschedule()\n}")
+	// sysmon asks a goroutine that has been running for 10 ms of real time to yield; on a loaded machine that is a
+	// timing-dependent scheduling point. Not while a seeded stream is installed (the collector is off, nothing
+	// inside a bubble runs that long of its own accord).
+	patch("proc.go.2", "\t\t\tpreemptone(pp)\n\t\t\t// If pp is in a syscall, preemptone doesn't work.", "\t\t\tif !verifLocalYield {\n\t\t\t\tpreemptone(pp)\n\t\t\t}\n\t\t\t// If pp is in a syscall, preemptone doesn't work.")
 	patch("stack.go", "\t\tgopreempt_m(gp) // never return\n", "\t\tif gp.bubble != nil && verifPreemptOneIn != 0 {\n\t\t\tgoyield_m(gp) // never return\n\t\t}\n\t\tgopreempt_m(gp) // never return\n")
 	add, err := os.ReadFile(filepath.Join(verifDir, "overlayfiles", "runtime", "zz_verif_rand.go.txt"))
 	must(err)
@@ -450,6 +454,18 @@ func buildScenario(b *Batch) *builtBin {
 			ensureFamilyRoot()
 		} else {
 			ensureFamily()
+			if b.Bubble {
+				// the bubble module is a module of its own: it gets a copy of the generated family and of the glue
+				bdir := filepath.Join(scratch, "b")
+				if _, err := os.Stat(filepath.Join(bdir, "fam")); err != nil {
+					if out, err := run(scratch, goEnv, "cp", "-r", filepath.Join(scratch, "fam"), filepath.Join(bdir, "fam")); err != nil {
+						die(2, "copy family: %v %s", err, out)
+					}
+					if out, err := run(scratch, goEnv, "cp", filepath.Join(scratch, "scen", "s4", "glue.go"), filepath.Join(bdir, "scen", "s4", "glue.go")); err != nil {
+						die(2, "copy glue: %v %s", err, out)
+					}
+				}
+			}
 		}
 	}
 	gensimPath := ""
@@ -1052,6 +1068,9 @@ func main() {
 		b := &spec.Batches[bi]
 		if os.Getenv("VCHECK_FORCE_ROOT") != "" && b.Pkg == "scen/s4" && b.Module == "" {
 			b.Module = "root" // exploration aid: run a property's S4 batches against the root module
+		}
+		if os.Getenv("VCHECK_FORCE_BKERN") != "" && !b.Bubble && b.Module == "" && (b.Pkg == "scen/s4" || b.Pkg == "scen/s2" || b.Pkg == "scen/s1") {
+			b.Bubble, b.Tags = true, "bkern" // exploration aid: run a token-kernel batch on the bubble kernel
 		}
 		if only := os.Getenv("VCHECK_ONLY"); only != "" && !strings.Contains(b.Module+":"+b.Scen+":"+b.Cfg+":"+b.Tags, only) {
 			continue // debugging aid: run only the batches whose "module:scenario:cfg" contains the given text
